@@ -48,7 +48,16 @@ Inductive op :=
 | LoadRuntime
 | SetProjectLocation (loc : option string)
 | SetRuntimePath (p : option (string * string))
-| Clone (into_defaults : option tree).
+| Clone (into_defaults : option tree)
+(* the same load calls with [merge=False], and the public [merge()] *)
+| LoadDefaultsD (t : tree)
+| LoadOverridesD (t : tree)
+| LoadCollectionD (t : tree)
+| LoadSystemD
+| LoadUserD
+| LoadProjectD
+| LoadRuntimeD
+| Merge.
 
 (** Histories may hold proxies: [Hold h fl kp] is [h = c.<kp>], [Via h o] is the
     path operation [o] applied to the held proxy [h] (its paths relative to it). *)
